@@ -39,11 +39,12 @@ type scenario struct {
 	Seed   int64
 	Cfg    string
 	Stages []*stage
+	Deep   bool
 	Struct string // structural description (signature input)
 }
 
 // buildScenario runs a seeded primary history and freezes nStages replica states.
-func buildScenario(seed int64, idx int, dir string, nStages int, res *vf.Result) (*scenario, error) {
+func buildScenario(seed int64, idx int, dir string, nStages int, deep bool, res *vf.Result) (*scenario, error) {
 	rng := rand.New(rand.NewSource(seed))
 	cfg := pickConfig(rng, idx)
 	p, err := newPrimary(filepath.Join(dir, "prim"), cfg, rng, res)
@@ -52,7 +53,7 @@ func buildScenario(seed int64, idx int, dir string, nStages int, res *vf.Result)
 	}
 	defer p.close()
 	p.small = true
-	sc := &scenario{Seed: seed, Cfg: cfg.String()}
+	sc := &scenario{Seed: seed, Cfg: cfg.String(), Deep: deep}
 	freeze := func(desc string) error {
 		k := len(sc.Stages)
 		st := &stage{Dir: filepath.Join(dir, fmt.Sprintf("stage%d", k)), Max: p.max(), Floor: snapshotFloor(p.e.RepPath), L0: l0Set(p.e.RepPath), Desc: desc}
@@ -84,6 +85,13 @@ func buildScenario(seed int64, idx int, dir string, nStages int, res *vf.Result)
 	// a fresh snapshot and a snapshot-retention pass.
 	shapes := []string{"compact1", "shrink+compact1+tail", "compact1+compact2+tail", "snapshot+compact1", "plain", "compact1+prune+tail", "shrink", "compact1+compact2"}
 	off := rng.Intn(len(shapes))
+	if deep {
+		// A follower that goes down in stage 0 or 1 and comes back two or three
+		// stages later finds its next level-0 and level-1 files gone: the way up is
+		// the coarse L2 file, then the newest L1 file, then level 0.
+		shapes = []string{"marker+compact1+compact2", "marker+compact1+deepprune+tail", "plain", "marker+compact1+compact2+tail", "marker+compact1+deepprune+tail", "shrink"}
+		off = 0
+	}
 	for k := 1; k < nStages; k++ {
 		shape := shapes[(off+k-1)%len(shapes)]
 		if err := p.write(1 + rng.Intn(3)); err != nil {
@@ -111,6 +119,12 @@ func buildScenario(seed int64, idx int, dir string, nStages int, res *vf.Result)
 				if !p.pruneSnapshots(sc.Stages[len(sc.Stages)-1].Max) {
 					res.Logf("prune skipped")
 				}
+			case "marker":
+				if err := p.marker(); err != nil {
+					return nil, err
+				}
+			case "deepprune":
+				p.deepPrune()
 			case "plain":
 			}
 		}
@@ -148,6 +162,9 @@ type killSpec struct {
 	// process instead of as a new victim process (same Replica.Restore call on the
 	// files the killed process left; saves one process start per kill run).
 	InprocRestart bool `json:"inproc_restart"`
+	// Deep: stage shapes that leave a follower which was down for 2-3 stages with a
+	// way up through >= 2 compaction levels only; the primary advances up to 3 stages.
+	Deep bool `json:"deep"`
 }
 
 type campaign struct {
@@ -168,6 +185,7 @@ type runResult struct {
 	total     int
 	log       *ptLog
 	completed bool // reached final quiescence and compared
+	multi     int  // restarts whose way up led through >= 2 compaction levels
 }
 
 func (c *campaign) publish(link string, k int) error {
@@ -256,8 +274,21 @@ func (c *campaign) run(tag string, count bool, kills []int, adv []int) (*runResu
 		_, statErr := os.Stat(out)
 		dbExists := statErr == nil
 		sidecarAtStart := track.sample(fmt.Sprintf("%s start of incarnation %d", tag, inc)) // -1 = unreadable
-		if inc > 0 && dbExists && sidecarAtStart > 0 && sidecarAtStart < c.sc.Stages[ptr].Max && !hasL0(c.sc.Stages[ptr].Dir, sidecarAtStart+1) {
-			res.Count("restart_needs_gap_bridging", 1)
+		pathOK := false
+		if inc > 0 && dbExists && sidecarAtStart > 0 && sidecarAtStart < c.sc.Stages[ptr].Max {
+			if !hasL0(c.sc.Stages[ptr].Dir, sidecarAtStart+1) {
+				res.Count("restart_needs_gap_bridging", 1)
+			}
+			ok, levels, path := bridgePath(c.sc.Stages[ptr].Dir, sidecarAtStart)
+			pathOK = ok
+			switch {
+			case !ok:
+				res.Count("restart_without_incremental_path", 1)
+			case levels >= 2:
+				res.Count("restart_bridges_ge2_levels", 1)
+				rr.multi++
+			}
+			res.Logf("%s: restart path from %d: ok=%v levels=%d %v", tag, sidecarAtStart, ok, levels, path)
 		}
 		var f *follower
 		if mode == "" && c.inprocRestart {
@@ -387,7 +418,7 @@ func (c *campaign) run(tag string, count bool, kills []int, adv []int) (*runResu
 				res.Evals++
 				sc := track.sample(tag + " stalled")
 				f.kill()
-				if dbExists && inc > 0 && sidecarAtStart < st.Floor {
+				if dbExists && inc > 0 && sidecarAtStart < st.Floor && !pathOK {
 					res.Count("stall_outside_precondition", 1)
 					return rr, nil
 				}
@@ -420,9 +451,12 @@ func (c *campaign) run(tag string, count bool, kills []int, adv []int) (*runResu
 		}
 		np := ptr
 		for a > 0 && np < last {
-			// stay inside the precondition: the follower's sidecar must be covered by the oldest snapshot
-			if statErr == nil && sc > 0 && sc < c.sc.Stages[np+1].Floor {
-				break
+			// only move on while the follower can still catch up incrementally: every
+			// TXID above its sidecar is covered by some file of levels 0..8
+			if statErr == nil && sc > 0 {
+				if ok, _, _ := bridgePath(c.sc.Stages[np+1].Dir, sc); !ok {
+					break
+				}
 			}
 			np++
 			a--
@@ -455,7 +489,7 @@ func runKill(run *vf.Run, raw json.RawMessage, dir string) *vf.Result {
 		res.HarnessErr = "ptrace supervisor missing (" + filepath.Join(vf.Root, "bin", "ptsup") + "): run /verif/setup.sh"
 		return res
 	}
-	sc, err := buildScenario(s.Seed, s.Scn, dir, s.Stages, res)
+	sc, err := buildScenario(s.Seed, s.Scn, dir, s.Stages, s.Deep, res)
 	if err != nil {
 		res.HarnessErr = "scenario: " + err.Error()
 		return res
@@ -505,7 +539,11 @@ func runKill(run *vf.Run, raw json.RawMessage, dir string) *vf.Result {
 	points = dedup(points)
 	completed := 0
 	for _, n := range points {
-		r, err := c.run(fmt.Sprintf("kill@%d", n), false, []int{n}, []int{rng.Intn(3)})
+		advMax := 3
+		if s.Deep {
+			advMax = 4
+		}
+		r, err := c.run(fmt.Sprintf("kill@%d", n), false, []int{n}, []int{rng.Intn(advMax)})
 		if err != nil {
 			res.HarnessErr = err.Error()
 			return res
